@@ -412,6 +412,176 @@ def _a7b_positive(tree: ast.AST, m) -> List[Tuple[str, str]]:
     return [(mu.qual.split(":")[1], w) for (st, attr, mu, w) in _a7b_core(target, units)]
 
 
+def _attr_chains(e: ast.AST, names: Set[str]) -> Set[str]:
+    """`n` or `n.attr...` chains (first two components) rooted at one of `names` inside e."""
+    out = set()
+    for x in ast.walk(e):
+        d = dotted(x) if isinstance(x, (ast.Attribute, ast.Name)) else None
+        if d and d.split(".")[0] in names:
+            out.add(".".join(d.split(".")[:2]))
+    # `n.a` subsumes a bare mention of `n` only if the bare name is not itself used
+    bare = {c for c in out if "." not in c}
+    for x in ast.walk(e):
+        if isinstance(x, ast.Attribute) and isinstance(x.value, ast.Name) and x.value.id in bare:
+            pass
+    # drop a bare name when every occurrence of it is the root of an attribute chain
+    roots_only = set()
+    for n in bare:
+        occ = [x for x in ast.walk(e) if isinstance(x, ast.Name) and x.id == n]
+        attr_roots = [x for x in ast.walk(e) if isinstance(x, ast.Attribute)
+                      and isinstance(x.value, ast.Name) and x.value.id == n]
+        if occ and len(occ) == len(attr_roots):
+            roots_only.add(n)
+    return out - roots_only
+
+
+def _a7_lazy_unit(u: Unit):
+    """[(store stmt, attr, missing params)] for a lazily initialised attribute
+    (`if self.X is None: self.X = E`) whose value E depends on parameters of the method:
+    the first call decides, later calls with other arguments are served the old value."""
+    from oqv.dataflow import depends_on
+    out = []
+    params = [p for p in u.params if p not in ("self", "cls")]
+    if not params:
+        return out
+    du = None
+    for st in walk_local(u.node):
+        if not (isinstance(st, ast.Assign) and len(st.targets) == 1):
+            continue
+        attr = dotted(st.targets[0])
+        if not (attr and attr.startswith("self.") and attr.count(".") == 1):
+            continue
+        guarded = False
+        for (t, br) in branch_context(u.node, st):
+            for c in ast.walk(t):
+                if isinstance(c, ast.Compare) and len(c.ops) == 1 and dotted(c.left) == attr \
+                        and isinstance(c.comparators[0], ast.Constant) \
+                        and c.comparators[0].value is None \
+                        and isinstance(c.ops[0], (ast.Is, ast.Eq)) == br:
+                    guarded = True
+        if not guarded:
+            continue
+        if du is None:
+            du = DefUse(u, CFG(u.node, exc_edges=False))
+        nid = du.node_of(st.value)
+        needed = sorted(p_ for p_ in params if depends_on(du, st.value, nid, {p_}))
+        # a validity test that compares a stored copy of the parameter would cover it
+        covered = set()
+        for (t, br) in branch_context(u.node, st):
+            for c in ast.walk(t):
+                if isinstance(c, ast.Compare) and dotted(c.left) != attr:
+                    for p_ in params:
+                        if any(isinstance(y, ast.Name) and y.id == p_ for y in ast.walk(c)) and \
+                                any(isinstance(y, ast.Attribute) and (dotted(y) or "").startswith("self.")
+                                    for y in ast.walk(c)):
+                            covered.add(p_)
+        missing = [p_ for p_ in needed if p_ not in covered]
+        # a memo serves the stored value: the attribute is read after it has been set (an
+        # attribute that is only recorded, or only passed to a validator beforehand, is not one)
+        g = du.cfg
+        read_after = g.find_path(
+            [b_ for b_, _ in g.succ[nid]],
+            lambda x: any(isinstance(y, ast.Attribute) and isinstance(y.ctx, ast.Load)
+                          and dotted(y) == attr for y in g.nodes[x].walk())) is not None
+        if needed and read_after:
+            out.append((st, attr, missing))
+    return out
+
+
+def _a7_closure_unit(prog: Program, u: Unit):
+    """[(store stmt, description, missing chains)] for a memo kept in a container that a
+    closure reaches through a local of the enclosing method:
+
+        c = self.A.setdefault(K, {})          # or self.A[K]
+        def f(k): ... c[k] = V ... return c[k]
+
+    The entry is identified by (K, k).  V may depend on parameters of f and on variables of
+    the enclosing method; a key component `obj.attr` identifies only that attribute of `obj`,
+    not the object."""
+    out = []
+    if u.parent is None or isinstance(u.node, ast.Lambda):
+        return out
+    outer = u.parent
+    # locals of the enclosing method bound to a slot of a self attribute
+    slots = {}
+    for st in walk_local(outer.node):
+        if isinstance(st, ast.Assign) and len(st.targets) == 1 and isinstance(st.targets[0], ast.Name):
+            v = st.value
+            key = None
+            if isinstance(v, ast.Call) and isinstance(v.func, ast.Attribute) \
+                    and v.func.attr in ("setdefault", "get") and v.args \
+                    and (dotted(v.func.value) or "").startswith("self."):
+                key, base = v.args[0], dotted(v.func.value)
+            elif isinstance(v, ast.Subscript) and (dotted(v.value) or "").startswith("self."):
+                key, base = v.slice, dotted(v.value)
+            if key is not None:
+                slots[st.targets[0].id] = (base, key)
+    if not slots:
+        return out
+    outer_names = set(outer.params) | {t.id for st in walk_local(outer.node)
+                                      if isinstance(st, ast.Assign) for t in st.targets
+                                      if isinstance(t, ast.Name)}
+    outer_names -= {"self"}
+    f_params = set(u.params)
+    du = DefUse(u, CFG(u.node, exc_edges=False))
+    for st in walk_local(u.node):
+        if not (isinstance(st, ast.Assign) and len(st.targets) == 1
+                and isinstance(st.targets[0], ast.Subscript)
+                and isinstance(st.targets[0].value, ast.Name)
+                and st.targets[0].value.id in slots):
+            continue
+        cname = st.targets[0].value.id
+        base, outer_key = slots[cname]
+        inner_key = st.targets[0].slice
+        looked_up = any(isinstance(x, ast.Compare) and any(isinstance(o, (ast.In, ast.NotIn))
+                                                           for o in x.ops)
+                        and any(dotted(c) == cname for c in x.comparators)
+                        for x in walk_local(u.node))
+        if not looked_up:
+            continue
+        names = (outer_names | f_params) - {cname}
+        # close the stored value over the outer method's locals (tmp = f(bath...) etc.)
+        exprs = [st.value]
+        seen = set()
+        work = [y.id for y in ast.walk(st.value) if isinstance(y, ast.Name)]
+        while work:
+            n = work.pop()
+            if n in seen:
+                continue
+            seen.add(n)
+            for st2 in walk_local(outer.node):
+                if isinstance(st2, ast.Assign) and any(isinstance(t, ast.Name) and t.id == n
+                                                       for t in st2.targets):
+                    exprs.append(st2.value)
+                    work += [y.id for y in ast.walk(st2.value) if isinstance(y, ast.Name)]
+        needed = set()
+        for e in exprs:
+            needed |= _attr_chains(e, (set(outer.params) | f_params) - {"self"})
+        covered = _attr_chains(outer_key, set(outer.params) - {"self"}) | \
+            _attr_chains(inner_key, f_params)
+        missing = sorted(c for c in needed
+                         if c not in covered and c.split(".")[0] not in covered)
+        out.append((st, f"{base}[{norm(outer_key)}][{norm(inner_key)}]", missing))
+    return out
+
+
+def memo_findings(prog: Program, units):
+    """All memo idioms found in `units`: [(unit, node, construct, missing list)] - dict memos
+    (key completeness), lazily initialised attributes, memos reached through a closure."""
+    out = []
+    for u in units:
+        if isinstance(u.node, ast.Lambda):
+            continue
+        for (st, attr, key_expr, covered, missing) in _a7_unit(u):
+            out.append((u, st, f"memo {attr}[{norm(key_expr)}] <- {norm(st.value)[:40]}", missing))
+        if u.cls is not None and u.parent is None:
+            for (st, attr, missing) in _a7_lazy_unit(u):
+                out.append((u, st, f"lazy {attr} <- {norm(st.value)[:50]}", missing))
+        for (st, desc, missing) in _a7_closure_unit(prog, u):
+            out.append((u, st, f"memo {desc} <- {norm(st.value)[:40]}", missing))
+    return out
+
+
 def guarded_caches(prog: Program):
     """[(guard unit, cache attr, mutator unit, written source attr)] for the idiom
 
@@ -526,6 +696,24 @@ def a7(prog: Program, chk: Check) -> None:
                     f"the stored value depends on {missing}, which is neither part of the key nor "
                     f"checked on look-up: a later call with a different {missing[0]} gets the "
                     f"stale entry", st)
+    for u in prog.units.values():
+        if isinstance(u.node, ast.Lambda):
+            continue
+        if u.cls is not None and u.parent is None:
+            for (st, attr, missing) in _a7_lazy_unit(u):
+                n += 1
+                chk.saw(u)
+                chk.add("A7", u, f"lazy {attr} <- {norm(st.value)[:50]}", not missing,
+                        "value validated against its arguments" if not missing else
+                        f"{attr} is computed once from {missing} and then reused: a later call "
+                        f"with a different {missing[0]} is served the first value", st)
+        for (st, desc, missing) in _a7_closure_unit(prog, u):
+            n += 1
+            chk.saw(u)
+            chk.add("A7", u, f"memo {desc} <- {norm(st.value)[:40]}", not missing,
+                    "entry identified by everything the value depends on" if not missing else
+                    f"the stored value depends on {missing}, the key does not: two objects that "
+                    f"agree in the key but differ there share one entry", st)
     chk.extra["a7_memos_found"] = n
     chk.rule("A7b", "state a hand-written memo was computed from is not rewritten by another "
              "method of the class family unless that method also drops the memo (expected count "
@@ -767,6 +955,30 @@ def _fresh_c(prog: Program, u: Unit, du: DefUse, nid: int, arr: str) -> Tuple[bo
     return True, "fresh C-contiguous array"
 
 
+def layout_orders(prog: Program, modules=None):
+    """[(unit, call, order)] : ravel / flatten / reshape / np.array(..) calls with an explicit
+    order other than 'C' in library code (expected on the pinned tree: none except the
+    documented order='C' copies)."""
+    out = []
+    for u in prog.units.values():
+        if isinstance(u.node, ast.Lambda) or (modules and u.module.short not in modules):
+            continue
+        for c in walk_local(u.node):
+            if not isinstance(c, ast.Call):
+                continue
+            fn = (dotted(c.func) or "").split(".")[-1]
+            if fn not in ("ravel", "flatten", "reshape", "array", "asarray", "copy", "astype"):
+                continue
+            for k in c.keywords:
+                if k.arg == "order" and isinstance(k.value, ast.Constant) \
+                        and k.value.value in ("K", "A", "F"):
+                    out.append((u, c, k.value.value))
+            if fn in ("ravel", "flatten") and c.args and isinstance(c.args[-1], ast.Constant) \
+                    and c.args[-1].value in ("K", "A", "F"):
+                out.append((u, c, c.args[-1].value))
+    return out
+
+
 def a4(prog: Program, chk: Check) -> None:
     chk.rule("A4", "a store to .shape either only inserts unit axes into the old shape or acts "
              "on an array that is provably fresh and C-contiguous", floor=9)
@@ -792,8 +1004,15 @@ def a4(prog: Program, chk: Check) -> None:
                 ok2, why2 = _fresh_c(prog, u, du, nid, arr)
                 ok, why = ok2, (why2 if ok2 else f"{why}; and {why2}")
             chk.add("A4", u, f"{arr}.shape = {norm(st.value)}", ok, why, st)
-    if n < 9:
-        raise AnalysisError(f"A4: only {n} .shape stores found (floor 9)")
+    # layout-dependent flattening: order 'K' / 'A' follow the memory layout, 'F' transposes
+    for (u, c, order) in layout_orders(prog):
+        chk.saw(u)
+        chk.add("A4", u, f"{norm(c)[:60]}", False,
+                f"order={order!r} flattens / reshapes in an order that depends on (or differs "
+                f"from) the logical C order: a transposed view of the same matrix gives a "
+                f"different vector", c)
+    if n < 8:
+        raise AnalysisError(f"A4: only {n} .shape stores found (floor 8)")
 
 
 # --------------------------------------------------------------------- A5
